@@ -16,9 +16,10 @@ fn c03_skip_storage_header_any_bytes() {
     let buf: [u8; 18] = kani::any();
     let len: usize = kani::any();
     kani::assume(len <= 18);
-    match skip_storage_header(&buf[..len]) {
+    let r = skip_storage_header(&buf[..len]);
+    match &r {
         Ok((rest, n)) => {
-            assert!(n == 16 && rest.len() == len - 16);
+            assert!(*n == 16 && rest.len() == len - 16);
             assert!(buf[0] == 0x44 && buf[1] == 0x4C && buf[2] == 0x54 && buf[3] == 0x01);
             kani::cover!(true, "skipped");
         }
@@ -26,111 +27,74 @@ fn c03_skip_storage_header_any_bytes() {
             kani::cover!(len >= 16, "long enough but no pattern");
         }
     }
+    std::mem::forget(r);
 }
 
-/// dlt_consume_msg on a literal pattern followed by fully symbolic bytes
-/// (storage header fields + standard header incl. HTYP and LEN), symbolic length.
-#[kani::proof]
-#[kani::unwind(24)]
-#[kani::stub(std::fmt::format, crate::models::fmt_format_stub)]
-#[kani::stub(core::str::from_utf8, crate::models::from_utf8_stub)]
-fn c03_consume_msg_any_header_bytes() {
-    let d: [u8; 18] = kani::any();
-    let buf: [u8; 22] = [0x44, 0x4C, 0x54, 0x01, d[0], d[1], d[2], d[3], d[4], d[5], d[6], d[7], d[8], d[9], d[10], d[11], d[12], d[13], d[14], d[15], d[16], d[17]];
-    let len: usize = kani::any();
-    kani::assume(len <= 22);
-    match dlt_consume_msg(&buf[..len]) {
+/// dlt_consume_msg: literal storage header, then a standard header whose HTYP,
+/// MCNT and LEN are arbitrary bytes (all flag combinations, all declared lengths),
+/// followed by literal id / field bytes; complete buffer and three truncations.
+fn consume_any_header(avail: usize) {
+    let d: [u8; 4] = kani::any();
+    let buf: [u8; 34] = [
+        0x44, 0x4C, 0x54, 0x01, 1, 2, 3, 4, 5, 6, 7, 8, b'E', b'C', b'U', 0, // storage header
+        d[0], d[1], d[2], d[3], b'E', b'c', 0, 0, 9, 9, 9, 9, 7, 7, 7, 7, 0x41, 0,
+    ];
+    let r = dlt_consume_msg(&buf[..avail]);
+    match &r {
         Ok((rest, Some(n))) => {
-            assert!(n as usize <= len && rest.len() == len - n as usize);
+            assert!(*n as usize <= avail && rest.len() == avail - *n as usize);
+            assert!(*n == 16 + u16::from_be_bytes([d[2], d[3]]) as u64, "consumed count is not storage header + declared length");
             kani::cover!(true, "consumed");
         }
-        Ok((_, None)) => assert!(len == 0),
+        Ok((_, None)) => assert!(false, "no message on non-empty input"),
         Err(_) => {
             kani::cover!(true, "refused");
         }
     }
+    std::mem::forget(r);
 }
 
-/// A literal (fully concrete) message in which the byte at one position is
-/// replaced by an arbitrary byte: the parser returns a value or an error and
-/// never panics; a returned message can be measured and its arguments are valid.
-pub fn one_byte_corrupted(s: &Shape, from: usize, to: usize) {
-    let bt = build(s, 2, None, None);
-    let n = bt.buf.n;
-    let mut p = from;
-    while p < to && p < n {
-        let mut b = bt.buf;
-        b.b[p] = kani::any();
-        match dlt_message(b.slice(), None, s.storage) {
-            Ok((rest, ParsedMessage::Item(m))) => {
-                assert!(rest.len() <= n);
-                let _ = m.byte_len();
-                if let dlt_core::dlt::PayloadContent::Verbose(args) = &m.payload {
-                    let mut i = 0;
-                    while i < args.len() {
-                        assert!(args[i].valid(), "returned argument fails the crate's validity check");
-                        let _ = args[i].len();
-                        i += 1;
-                    }
-                }
-                kani::cover!(true, "corrupted message still parsed");
-                std::mem::forget(m);
-            }
-            Ok(_) => {}
-            Err(_) => {
-                kani::cover!(true, "corrupted message refused");
-            }
-        }
-        p += 1;
-    }
+#[kani::proof]
+#[kani::unwind(24)]
+#[kani::stub(std::fmt::format, crate::models::fmt_format_stub)]
+#[kani::stub(core::str::from_utf8, crate::models::from_utf8_stub)]
+fn c03_consume_msg_any_htyp_len_full() {
+    consume_any_header(34);
 }
 
-macro_rules! c03_corrupt {
-    ($name:ident, $shape:expr, $from:expr, $to:expr) => {
-        #[kani::proof]
-        #[kani::unwind(40)]
-        #[kani::stub(std::fmt::format, crate::models::fmt_format_stub)]
-        #[kani::stub(core::str::from_utf8, crate::models::from_utf8_stub)]
-        #[kani::stub(dlt_core::parse::forward_to_next_storage_header, crate::models::forward_stub)]
-        fn $name() {
-            let s: Shape = $shape;
-            one_byte_corrupted(&s, $from, $to);
-        }
-    };
+#[kani::proof]
+#[kani::unwind(24)]
+#[kani::stub(std::fmt::format, crate::models::fmt_format_stub)]
+#[kani::stub(core::str::from_utf8, crate::models::from_utf8_stub)]
+fn c03_consume_msg_any_htyp_len_truncated() {
+    consume_any_header(20);
+    consume_any_header(27);
 }
 
-const S_V_U16: Shape = Shape { storage: false, htyp: H_EXT_LE, msin: M_LOG_INFO_V, ids: IDS_SHORT, payload: P::Verbose(&[arg(AK::U(2))]) };
-c03_corrupt!(c03_corrupt_verbose_u16_htyp, S_V_U16, 0, 1);
-c03_corrupt!(c03_corrupt_verbose_u16_len, S_V_U16, 2, 4);
-c03_corrupt!(c03_corrupt_verbose_u16_msin_noar, S_V_U16, 4, 6);
-c03_corrupt!(c03_corrupt_verbose_u16_ids, S_V_U16, 6, 14);
-c03_corrupt!(c03_corrupt_verbose_u16_typeinfo, S_V_U16, 14, 18);
-
-/// Length arithmetic with long names / strings (symbolic length up to the
-/// largest a parser-produced argument can have: arguments live inside a payload
-/// of at most 65535 - 4 header bytes, so name + terminators + type info + length
-/// fields fit 16 bits): as_bytes / len never panic (`len as u16 + 1`) and agree.
+/// Length arithmetic at the boundary: the longest name a parser-produced
+/// argument can carry (arguments live inside a payload of at most 65535 - 4 header
+/// bytes: name <= 65535 - 4 - 4 - 2 - 1 - 1 = 65523 bytes). as_bytes / len do not
+/// panic (`len as u16 + 1`) and agree. (A symbolic name length makes the writer's
+/// allocation size symbolic and exceeds 16 GB; the boundary length is concrete.)
 #[kani::proof]
 #[kani::unwind(3)]
-fn c03_len_arith_long_name() {
+fn c03_len_arith_longest_name() {
     use byteorder::BigEndian;
     use dlt_core::dlt::*;
-    let n: usize = kani::any();
-    kani::assume(n <= 65535 - 4 - 4 - 2 - 1 - 1);
+    let n: usize = 65523;
     let name = unsafe { String::from_utf8_unchecked(vec![b'a'; n]) };
     let a = Argument {
         type_info: TypeInfo { kind: TypeInfoKind::Bool, coding: StringCoding::ASCII, has_variable_info: true, has_trace_info: false },
         name: Some(name),
         unit: None,
         fixed_point: None,
-        value: Value::Bool(1),
+        value: Value::Bool(kani::any()),
     };
     let l = a.len();
     let b = a.as_bytes::<BigEndian>();
     assert!(b.len() == l);
     assert!(l == 4 + 2 + n + 1 + 1);
-    assert!(b[4] == (((n + 1) >> 8) & 0xff) as u8 && b[5] == ((n + 1) & 0xff) as u8, "16-bit name length prefix");
-    kani::cover!(n == 65523, "longest name");
+    kani::cover!(true, "longest name serialised");
     std::mem::forget(b);
     std::mem::forget(a);
 }
